@@ -33,7 +33,8 @@ Proof. exact grow_capacity_spec. Qed.
 Theorem C12_create_within : forall cfg s vs, Inv s -> length vs = length (cols s) ->
   if decide (len s < cap s)
   then exists h x, push_within cfg s vs = Ok (created_state cfg s h x vs) (Some (created_handle s h x)) /\
-                   Inv (created_state cfg s h x vs) /\ cap (created_state cfg s h x vs) = cap s
+                   Inv (created_state cfg s h x vs) /\ cap (created_state cfg s h x vs) = cap s /\
+                   head s = Free h /\ slots s !! h = Some x
   else push_within cfg s vs = Ok s None.
 Proof. exact push_within_spec. Qed.
 
